@@ -330,7 +330,8 @@ def interrupted_call(fn, at):
     def local(frame, event, arg):
         if event == "line":
             seen[0] += 1
-            if seen[0] == at:
+            if seen[0] >= at and not util._with_line(frame):
+                seen[0] = -10 ** 9
                 raise KeyboardInterrupt("injected at line %d of %s" % (frame.f_lineno, frame.f_code.co_name))
         return local
 
